@@ -45,6 +45,8 @@ class Program:
     raise KeyError(name)
 
   def strata(self):
+    if getattr(self, 'custom_strata', None) is not None:
+      return self.custom_strata
     return [{'pred': p.name} for p in self.preds]
 
   def text(self, printer=None):
